@@ -213,6 +213,14 @@ func (w *World) Args(m Method, rng *rand.Rand) []reflect.Value {
 				add(pickS(rng, w.Objs))
 				add(pickS(rng, w.Acts))
 			default: // fieldValues
+				if strings.HasPrefix(m.Name, "GetFiltered") && rng.Intn(3) == 0 {
+					// a filter made of empty values only (or of no value): "list everything"
+					if rng.Intn(2) == 0 {
+						add("")
+						add("")
+					}
+					break
+				}
 				if grouping {
 					add(pickS(rng, w.Users))
 				} else {
